@@ -29,6 +29,19 @@ Fixpoint path_eqb (a b : path) : bool :=
 Definition str_mem (s : str) (l : list str) : bool := existsb (str_eqb s) l.
 Definition path_mem (p : path) (l : list path) : bool := existsb (path_eqb p) l.
 
+(* number of components of the NORMALISED path (output/path.rs normalize_for_matching rebuilds the path from
+   its components and drops the current-directory ones; empty components do not exist for Path::components):
+   the distance of the entry from the PROJECT root.  The project root itself (spelled with a dot, or absolutely
+   and stripped of the current directory) has none. *)
+Definition is_curdir (s : str) : bool :=
+  match s with
+  | [] => true
+  | [c] => N.eqb c 46
+  | _ => false
+  end.
+Definition norm_len (p : path) : Z := Z.of_nat (length (filter (fun s => negb (is_curdir s)) p)).
+Definition is_project_root (p : path) : bool := norm_len p =? 0.
+
 Definition is_some {A} (o : option A) : bool := match o with Some _ => true | None => false end.
 Definition nonempty {A} (l : list A) : bool := match l with [] => false | _ => true end.
 
